@@ -76,7 +76,7 @@ def run(ctx):
     t = Tally(ctx, "B-11 list views: exact values, untouched close, edited list after append/remove/replace/references",
               "generated list fields of 1-5 values (duplicates included) with random separator layout, line breaks, comment lines, "
               "trailing separators, with or without space after the colon, first or last field of the document, document with or "
-              "without final newline x histories of 0-3 edits; non-trivial = distinct (field text, history)", "%d cases" % rounds)
+              "without final newline x histories of 0-3 edits (append, remove, replace, set / remove through references, a lazy walk over the references while the value ahead is removed, references used in a later session of the same view, values the list refuses, aborted sessions); non-trivial = distinct (field text, history)", "%d cases" % rounds)
     for _ in range(rounds):
         kind = rng.choice(["space", "comma"])
         ftext, vals = gen_list_field(rng, kind, "List")
@@ -115,7 +115,7 @@ def run(ctx):
         # step (what it hands out must reflect the field as it is now); the others ask the field element each time
         dict_view = next(iter(d)).as_interpreted_dict_view(interp[kind]) if rng.random() < 0.5 else None
         for step in range(rng.randint(0, 3)):
-            op = rng.choice(["append", "remove", "replace", "ref-set", "ref-remove", "aborted", "lazy-walk"])
+            op = rng.choice(["append", "remove", "replace", "ref-set", "ref-remove", "aborted", "lazy-walk", "ref-later", "ref-refused"])
             try:
                 if op == "aborted":
                     # a session that fails half way writes nothing back
@@ -139,7 +139,41 @@ def run(ctx):
                         break
                     continue
                 kv = next(iter(d)).get_kvpair_element("List")
-                with (dict_view["List"] if dict_view is not None else kv.interpret_as(interp[kind])) as l:
+                if op == "ref-later" and len(model) >= 1:
+                    # references taken in one session of a view (after an edit in that session) and used in a LATER session of
+                    # the same view: the edit made through them reaches the document
+                    view = dict_view["List"] if dict_view is not None else kv.interpret_as(interp[kind])
+                    k = rng.randrange(len(model) + 1)
+                    ops.append(["session 1: append 'first', take references; session 2 of the same view: set reference %d" % k])
+                    with view as l:
+                        l.append("first")
+                        refs = list(l.iter_value_references())
+                    model.append("first")
+                    with view as l:
+                        refs[k].value = "later"
+                    model[k] = "later"
+                elif op == "ref-refused" and model:
+                    # a value the list refuses (it contains the separator): ValueError, and neither the view nor - after closing
+                    # it - the document has changed
+                    k = rng.randrange(len(model))
+                    bad_value = "linux any" if kind == "space" else "a, b"
+                    ops.append(["set reference %d to the refused value %r" % (k, bad_value)])
+                    with (dict_view["List"] if dict_view is not None else kv.interpret_as(interp[kind])) as l:
+                        try:
+                            list(l.iter_value_references())[k].value = bad_value
+                            refused = False
+                        except ValueError:
+                            refused = True
+                        seen = list(l)
+                    if refused and (seen != model or d.dump() != doc):
+                        bad = t.failed("an assignment through a value reference that was refused with ValueError left traces", document=doc,
+                                       kind=kind, operations=ops, view=seen, expected=model, dump=d.dump())
+                        break
+                    if not refused:
+                        continue        # (the library took the value: no statement)
+                    continue
+                else:
+                  with (dict_view["List"] if dict_view is not None else kv.interpret_as(interp[kind])) as l:
                     if op == "append":
                         v = rng.choice(WORDS + ["new"])
                         ops.append(["append", v])
